@@ -3,6 +3,7 @@
    ONLY inside the closure that each operation hands to the scheduler function of the same name on self.queue.  With these shapes every
    access to the value happens inside an operation of the object's queue, which is what C01 (exclusive), C05 (not after the free) and C14
    rest on.  Each method body is compared, whitespace-normalised, with the shape recorded in the translator. *)
+From L0 Require Import Types.
 From Gen Require Import Tables.
 
 Lemma cl_wrapper_new : fact_wrapper_new = true. Proof. reflexivity. Qed.
@@ -20,3 +21,8 @@ Lemma cl_drop_only_syncs : fact_drop_only_syncs = true. Proof. reflexivity. Qed.
 Lemma cl_dispatch_sync : fact_dispatch_sync = true. Proof. reflexivity. Qed.
 Lemma cl_dispatch_try_sync : fact_dispatch_try_sync = true. Proof. reflexivity. Qed.
 Lemma cl_dispatch_sync_no_panic : fact_dispatch_sync_no_panic = true. Proof. reflexivity. Qed.
+
+(* Desync::drop on a thread that is already unwinding uses sync_no_panic: it decides exactly like sync (the models have one drop = sync)
+   except on a Panicked queue, where it gives up instead of panicking again *)
+Lemma cl_sync_no_panic_decides_like_sync : forall st e, g_sync_no_panic st e = g_sync st e \/ (exists a, g_sync_no_panic st e = (Panicked, a) /\ st = Panicked).
+Proof. intros st e. destruct st, e; cbn; first [left; reflexivity | right; eexists; split; reflexivity]. Qed.
